@@ -474,6 +474,11 @@ def e2e(chk, mods):
                 'ctl': 'c', 'addr': 32768, 'title': [['Routine']], 'details': [], 'registers': [], 'start': [], 'end': [],
                 'groups': [{'instrs': [{'addr': 32768, 'op': 'LD A,B', 'label': None}, {'addr': 32769, 'op': 'RET', 'label': None}],
                             'lines': [[['a}}', 'x' * 50]], [['{{b']]], 'mid': []}]}]}
+        elif n in (1, 2, 3):
+            # deterministic sweep of the closing-brace fit boundary (comments ending in '}', last wrapped line
+            # of every length around the comment width, groups of 1..3 instructions)
+            lw = (79, 60, 100)[n - 1]
+            spec = annot.closing_boundary_spec(lw)
         fails, ctl = check_ctl(chk, mods, spec, lw)
         chk.case('e2e-ctl', ('ctl', n), {'tool': 'sna2skool', 'line_width': lw, 'entries': len(spec['entries'])} if n < 1 else None)
         report(chk, 'ctl', fails, {'spec': spec, 'text': ctl, 'line_width': lw})
